@@ -611,6 +611,8 @@ class Checker:
                     what = None
                     if not (0 <= sp.start < sp.end <= len(src)):
                         what = "bad-offsets"
+                        if 0 < sp.start <= len(src) and src[:sp.start].rstrip().endswith(("(", "..")):
+                            what = "range-operand-bad-offsets"
                         got: Any = None
                         text = ""
                     else:
@@ -668,10 +670,15 @@ class Checker:
         if not (0 <= start < end <= len(src)):
             return "bad-offsets"
         text = src[start:end]
-        if text.startswith("{%"):
+        before = src[:start]
+        i = before.rfind("{%")
+        in_liquid = i >= 0 and "%}" not in before[i:] and re.match(r"\{%[-+~]?\s*liquid\b", before[i:]) is not None
+        if not in_liquid:
             m = RE_TAG_OPEN.match(text)
             if not m or m.group(1) != name:
-                return "after-comment" if RE_COMMENT_BEFORE.search(src[:start]) else "not-at-the-tag"
+                if text.startswith("{#") or re.match(r"\{%[-+~]?\s*(#|comment\b)", text):
+                    return "after-comment"
+                return "after-comment" if RE_COMMENT_BEFORE.search(before) else "not-at-the-tag"
             if not text.endswith("%}"):
                 return "markup-not-closed"
             if text.count("%}") != 1 and "'" not in text and '"' not in text:
@@ -684,10 +691,6 @@ class Checker:
             return "line-statement:includes-closing-delimiter"
         if "\n" in text and "'" not in text and '"' not in text:
             return "line-statement:spans-lines"
-        before = src[:start]
-        i = before.rfind("{%")
-        if i < 0 or "%}" in before[i:] or not re.match(r"\{%[-+~]?\s*liquid\b", before[i:]):
-            return "line-statement:outside-liquid-tag"
         return None
 
     def check_posmap(self, cs: Case, st: Static, posmap: dict[str, Any], out: list) -> None:
@@ -870,7 +873,7 @@ class Checker:
                 (getattr(tok, "source", None), getattr(tok, "start", None), getattr(tok, "stop", None)) in rep:
             res = True
         elif tok is not None and type(tok).__name__ in ("TagToken", "LinesToken") and \
-                tn not in ("BlockNode", "ConditionalBlockNode", "MultiExpressionBlockNode") and \
+                _node_name(o) not in ("BlockNode", "ConditionalBlockNode", "MultiExpressionBlockNode") and \
                 hasattr(o, "render_to_output") and (tok.source, tok.start, tok.stop) in rep:
             res = True
         if not res:
@@ -897,7 +900,8 @@ class Checker:
         if want == "Filter":
             # filters are reported through another channel than variables: name the place
             links = locate(inner, token, want)
-            return ">".join(f"{type(o).__name__}.{a}" for o, a, _v in links[-2:]) or None
+            named = [f"{type(o).__name__}.{a}" for o, a, _v in links if not hasattr(o, "render_to_output")]
+            return ">".join(named[-2:]) or None
         if not self.has_reported(inner, rep, budget):
             tok = getattr(inner, "token", None)
             if len(stack) > 1 and not (tok is not None and (getattr(tok, "source", None), getattr(tok, "start", None),
@@ -918,6 +922,7 @@ class Checker:
         rec = self.rec
         n = {"lookups": 0, "filters": 0, "tags": 0, "globals": 0, "resolves": 0}
         root_src = cs.root_src
+        self._rep_key = None  # objects of the previous render are gone: forget what was memoised
 
         def names(src: Any) -> list[str]:
             return cs.names_of.get(src, [])
@@ -939,7 +944,13 @@ class Checker:
                 tn = names(src)
                 text = src[start:stop] if isinstance(src, str) and 0 <= start <= stop <= len(src) else None
                 near = [segs for nm in tn for segs in st.var_at.get((nm, start, stop), ())]
-                where = self.blame(cs, st, stack, tok, "Path") or node
+                overl = [k for k, sl in st.var_at.items()
+                         if k[0] in tn and k[1] < stop and start < k[2] and any(covers(sg, path) for sg in sl)]
+                if overl:
+                    where = "span-mismatch"  # the variable is reported, at another place
+                    near = [(k[1], k[2]) for k in overl]
+                else:
+                    where = self.blame(cs, st, stack, tok, "Path") or node
                 out.append((f"vars:missing@{where}",
                             f"the render looked up {_short_path(path)} at {tn}[{start}:{stop}] = {text!r} "
                             f"but analyze().variables has no such entry there"
